@@ -21,7 +21,7 @@ import z3
 from . import core, fmt, rx
 from .core import BoundExceeded, SBool, SInt, Unsupported, ctx, mk_bool, mk_int, sand, snot, sor, zi
 from .seq import SSeq, lift
-from .symdict import SymDict, sym_key
+from .symdict import SymDict, SymSet, sym_key
 
 
 _NOHIT = object()
@@ -96,10 +96,20 @@ def is_sym(x):
     return isinstance(x, (SInt, SBool, SSeq))
 
 
-def has_sym(x, depth=2):
+_LIST_ITER = type(iter([]))
+_TUPLE_ITER = type(iter(()))
+
+
+def has_sym(x, depth=3):
     if is_sym(x):
         return True
-    if isinstance(x, SymDict):
+    if type(x) in (_LIST_ITER, _TUPLE_ITER):
+        try:
+            red = x.__reduce__()
+            return has_sym(red[1][0], depth)
+        except Exception:
+            return False
+    if isinstance(x, (SymDict, SymSet)):
         return True
     if depth and isinstance(x, (list, tuple)):
         return any(has_sym(y, depth - 1) for y in x)
@@ -229,7 +239,7 @@ def s_eq(a, b):
 def s_contains(container, item):
     if isinstance(container, SSeq):
         return container.contains(item)
-    if isinstance(container, SymDict):
+    if isinstance(container, (SymDict, SymSet)):
         return container.s_contains(item)
     if isinstance(container, (str, bytes, bytearray)) and is_sym(item):
         return lift(container if not isinstance(container, bytearray) else bytes(container)).contains(item)
@@ -288,6 +298,9 @@ def p_len(I, x):
     f = I.dunder(x, "__len__")
     if f is not None:
         return I.call(f, (x,), {})
+    sh = I.shadow(x)
+    if sh is not None:
+        return len(sh)
     return len(x)
 
 
@@ -526,14 +539,14 @@ def p_slice(I, *a):
 def p_set(I, it=()):
     items = list(I.iterate(it))
     if has_sym(items):
-        raise Unsupported("set() of symbolic members")
+        return SymSet(items)
     return set(items)
 
 
 def p_frozenset(I, it=()):
     items = list(I.iterate(it))
     if has_sym(items):
-        raise Unsupported("frozenset() of symbolic members")
+        return SymSet(items, frozen=True)
     return frozenset(items)
 
 
@@ -598,7 +611,7 @@ class Interp:
 
     def dunder(self, obj, name):
         """Python-level special method of obj's type that should be interpreted"""
-        if is_sym(obj) or isinstance(obj, (SymDict, Closure, type)) or obj is None:
+        if is_sym(obj) or isinstance(obj, (SymDict, SymSet, Closure, type)) or obj is None:
             return None
         t = type(obj)
         if t.__module__ == "builtins":
@@ -620,6 +633,9 @@ class Interp:
         f = self.dunder(v, "__len__")
         if f is not None:
             return bool(self.call(f, (v,), {}) != 0)
+        sh = self.shadow(v)
+        if sh is not None:
+            return bool(sh)
         return bool(v)
 
     # -------------------------------------------------------------- calls
@@ -661,7 +677,7 @@ class Interp:
         if isinstance(f, types.FunctionType):
             if self.should_interpret(f, args, kwargs):
                 return self.run_function(f, args, kwargs)
-            return f(*args, **kwargs)
+            return self.call_native(f, args, kwargs)
         if isinstance(f, (staticmethod, classmethod)):
             return self.call(f.__func__, args, kwargs)
         try:
@@ -684,7 +700,20 @@ class Interp:
         cf = self.dunder(f, "__call__")
         if cf is not None:
             return self.call(cf, (f,) + args, kwargs)
-        return f(*args, **kwargs)
+        return self.call_native(f, args, kwargs)
+
+    def call_native(self, f, args, kwargs):
+        """call into CPython; a TypeError/AttributeError caused by handing a proxy to
+        code that cannot take one is an engine limitation, not program behaviour"""
+        if not (has_sym(args, 3) or (kwargs and has_sym(tuple(kwargs.values()), 3))):
+            return f(*args, **kwargs)
+        try:
+            return f(*args, **kwargs)
+        except (TypeError, AttributeError) as e:
+            msg = str(e)
+            if "SSeq" in msg or "SInt" in msg or "SBool" in msg or "SymDict" in msg or "SymSet" in msg:
+                raise Unsupported(f"native call {getattr(f, '__qualname__', f)} cannot take a symbolic value: {msg}")
+            raise
 
     def re_module_call(self, f, rname, args, kwargs):
         subj_i = {"sub": 2}.get(rname, 1)
@@ -698,6 +727,11 @@ class Interp:
 
     def call_builtin(self, f, args, kwargs):
         recv = getattr(f, "__self__", None)
+        if isinstance(recv, dict) and not isinstance(recv, SymDict) and self.shadow(recv) is not None:
+            return self.dict_native(recv, f.__name__, args, kwargs, f)
+        if isinstance(f, (types.MethodDescriptorType, types.WrapperDescriptorType)) and getattr(f, "__objclass__", None) is dict \
+                and args and isinstance(args[0], dict) and not isinstance(args[0], SymDict) and self.shadow(args[0]) is not None:
+            return self.dict_native(args[0], f.__name__, args[1:], kwargs, lambda *a, **k: f(args[0], *a, **k))
         if not has_sym(args) and not (kwargs and has_sym(tuple(kwargs.values()))):
             if isinstance(recv, SymDict) or not isinstance(recv, (dict,)):
                 return f(*args, **kwargs)
@@ -709,10 +743,13 @@ class Interp:
             return getattr(lift(recv), f.__name__)(*args, **kwargs)
         if isinstance(recv, re.Pattern):
             return self.pattern_call(recv, f.__name__, args, kwargs)
-        if isinstance(recv, SymDict):
+        if isinstance(recv, (SymDict, SymSet)):
             return f(*args, **kwargs)
         if isinstance(recv, (dict, set, frozenset)) and not isinstance(recv, SymDict):
             return self.dict_native(recv, f.__name__, args, kwargs, f)
+        if getattr(f, "__name__", "") in ("__setattr__", "__delattr__", "__getattribute__", "__init__", "__new__", "__init_subclass__", "__eq__", "__ne__", "__repr__") \
+                and not isinstance(recv, (str, bytes, bytearray, dict, set, frozenset)) and recv is not None:
+            return self.call_native(f, args, kwargs)
         if recv is None or isinstance(recv, types.ModuleType):
             nm = getattr(f, "__name__", "")
             if f in (builtins.print, builtins.id, builtins.enumerate, builtins.zip, builtins.reversed, builtins.next, builtins.getattr, builtins.setattr, builtins.hasattr, builtins.callable, builtins.map, builtins.filter):
@@ -729,15 +766,61 @@ class Interp:
                 return self.dict_native(args[0], f.__name__, args[1:], kwargs, lambda *a, **k: f(args[0], *a, **k))
         raise Unsupported(f"native method {getattr(f, '__qualname__', f)} of {type(recv).__name__} with a symbolic argument")
 
+    # ---- shadows: dict-subclass instances that had to take symbolic keys --------
+    def shadow(self, obj):
+        if not core.active() or not isinstance(obj, dict) or isinstance(obj, SymDict):
+            return None
+        tab = getattr(ctx(), "shadows", None)
+        if not tab:
+            return None
+        ent = tab.get(id(obj))
+        return ent[1] if ent is not None and ent[0] is obj else None
+
+    def make_shadow(self, obj):
+        c = ctx()
+        tab = getattr(c, "shadows", None)
+        if tab is None:
+            tab = c.shadows = {}
+        sh = SymDict()
+        for k, v in dict.items(obj):
+            sh.s_set(k, v)
+        tab[id(obj)] = (obj, sh)
+        return sh
+
+    def dict_items(self, obj):
+        """items of a mapping as seen by interpreted code (shadow-aware)"""
+        sh = self.shadow(obj)
+        if sh is not None:
+            return sh.s_items()
+        if isinstance(obj, SymDict):
+            return obj.s_items()
+        return list(dict.items(obj))
+
     def dict_native(self, recv, nm, args, kwargs, native):
         """a C-level dict/set method on a native container, some argument symbolic"""
+        if isinstance(recv, dict):
+            sh = self.shadow(recv)
+            if sh is None:
+                needs = False
+                if nm in ("__init__", "update", "__ior__"):
+                    for a in args:
+                        if isinstance(a, SymDict) and a.has_sym_keys():
+                            needs = True
+                        elif isinstance(a, (list, tuple)) and any(sym_key(x[0]) for x in a if isinstance(x, (list, tuple)) and x):
+                            needs = True
+                elif args and sym_key(args[0]) and nm in ("__setitem__", "setdefault"):
+                    needs = True
+                if needs:
+                    sh = self.make_shadow(recv)
+            if sh is not None:
+                if nm == "__init__":
+                    return sh.update(*args, **kwargs)
+                return getattr(sh, nm)(*args, **kwargs)
         if nm in ("__init__", "update", "fromkeys", "__or__", "__ior__", "union", "intersection", "difference"):
             conv = []
             for a in args:
                 if isinstance(a, SymDict):
                     a = a.as_native()
-                elif isinstance(a, (list, tuple)) and any(sym_key(x[0]) for x in a if isinstance(x, (list, tuple)) and x):
-                    raise Unsupported(f"dict.{nm} with symbolic keys")
                 elif isinstance(recv, (set, frozenset)) and has_sym(a):
                     raise Unsupported(f"set.{nm} with symbolic members")
                 conv.append(a)
@@ -779,6 +862,10 @@ class Interp:
         if isinstance(recv, (set, frozenset)):
             if name == "__contains__":
                 return s_contains(recv, args[0])
+            if name == "issuperset":
+                return sand(*[s_contains(recv, x) for x in self.iterate(args[0])])
+            if name == "isdisjoint":
+                return snot(sor(*[s_contains(recv, x) for x in self.iterate(args[0])]))
             if name in ("add", "discard", "remove"):
                 key = args[0]
                 for k in list(recv):
@@ -841,6 +928,10 @@ class Interp:
                     else:
                         pre = z3.Or(*[cn for cn, _ in lst]) if len(lst) > 1 else lst[0][0]
                     c.solver.add(z3.Implies(pre, r == val))
+                from .seq import VAR_UB
+
+                VAR_UB[r.decl().name()] = max(byval)
+                c.solver.add(z3.ULE(r, max(byval)))
                 elems.append(r)
             c.model = None
             return SSeq("str" if vt is str else "bytes", elems, vl)
@@ -893,9 +984,12 @@ class Interp:
             self.run_function(init, (obj,) + tuple(args), kwargs)
             return obj
         if has_sym(args) or has_sym(tuple(kwargs.values())):
-            if issubclass(cls, BaseException) or cls.__module__ != "builtins":
+            if issubclass(cls, BaseException):
                 return cls(*args, **kwargs)
-            raise Unsupported(f"constructor {cls.__name__} with symbolic argument")
+            has_py = isinstance(init, types.FunctionType) or isinstance(new, (types.FunctionType, staticmethod))
+            if has_py and cls.__module__ != "builtins":
+                return cls(*args, **kwargs)
+            raise Unsupported(f"constructor {cls.__module__}.{cls.__name__} (C) with symbolic argument")
         return cls(*args, **kwargs)
 
     _sig_cache = {}
@@ -1112,6 +1206,8 @@ class Interp:
                 f = self.dunder(obj, "__delitem__")
                 if f is not None:
                     self.call(f, (obj, idx), {})
+                elif isinstance(obj, dict) and not isinstance(obj, SymDict) and self.shadow(obj) is not None:
+                    self.shadow(obj).s_del(idx)
                 elif type(obj) is dict and sym_key(idx):
                     self.hashed_call(obj, "__delitem__", (idx,), {})
                 else:
@@ -1155,6 +1251,9 @@ class Interp:
             return self.call(f, (it,), {})
         if isinstance(it, SymDict):
             return iter(it.s_keys())
+        sh = self.shadow(it)
+        if sh is not None:
+            return iter(sh.s_keys())
         return iter(it)
 
     def x_For(self, s, env):
@@ -1263,7 +1362,7 @@ class Interp:
     def e_Set(self, e, env):
         els = self._elts(e.elts, env)
         if has_sym(els):
-            raise Unsupported("set display with symbolic members")
+            return SymSet(els)
         return set(els)
 
     def _elts(self, elts, env):
@@ -1295,7 +1394,7 @@ class Interp:
         return self.getattr(obj, e.attr)
 
     def getattr(self, obj, name):
-        if is_sym(obj) or isinstance(obj, (type, types.ModuleType, SymDict, Closure)) or self.native_mode:
+        if is_sym(obj) or isinstance(obj, (type, types.ModuleType, SymDict, SymSet, Closure)) or self.native_mode:
             return getattr(obj, name)
         t = type(obj)
         if t.__module__ == "builtins":
@@ -1361,6 +1460,8 @@ class Interp:
             obj = lift(bytes(obj) if isinstance(obj, bytearray) else obj)
         if isinstance(obj, SymDict):
             return obj.s_get(idx)
+        if isinstance(obj, dict) and self.shadow(obj) is not None and self.dunder(obj, "__getitem__") is None:
+            return self.shadow(obj).s_get(idx)
         if isinstance(obj, (list, tuple)) and isinstance(idx, (SInt, SBool)):
             idx = ctx().concretize(zi(idx))
         if isinstance(obj, (list, tuple)) and isinstance(idx, slice) and any(is_sym(x) for x in (idx.start, idx.stop)):
@@ -1379,6 +1480,8 @@ class Interp:
         f = self.dunder(obj, "__setitem__")
         if f is not None:
             return self.call(f, (obj, idx, v), {})
+        if isinstance(obj, dict) and (self.shadow(obj) is not None or sym_key(idx)):
+            return self.dict_native(obj, "__setitem__", (idx, v), {}, lambda *a: dict.__setitem__(obj, *a))
         if isinstance(obj, list) and isinstance(idx, (SInt, SBool)):
             idx = ctx().concretize(zi(idx))
         if sym_key(idx) and isinstance(obj, dict):
@@ -1478,6 +1581,8 @@ class Interp:
             if f is not None:
                 r = self.call(f, (right, left), {})
                 r = r if isinstance(r, SBool) else bool(r)
+            elif self.shadow(right) is not None:
+                r = self.shadow(right).s_contains(left)
             else:
                 r = s_contains(right, left)
             return snot(r) if op is ast.NotIn else r
@@ -1643,7 +1748,7 @@ class Interp:
     def e_SetComp(self, e, env):
         vals = self.e_ListComp(e, env)
         if has_sym(vals):
-            raise Unsupported("set comprehension with symbolic members")
+            return SymSet(vals)
         return set(vals)
 
     def e_DictComp(self, e, env):
@@ -1676,3 +1781,6 @@ class NativeInterp:
 
     def truth(self, v):
         return bool(v)
+
+    def dict_items(self, obj):
+        return list(dict.items(obj))
